@@ -354,6 +354,21 @@ def m_ledgers(hist, rec):
                 g.paid[bid] = g.paid.get(bid, 0) + pay
                 if g.paid[bid] > int(bt["received_native_unstaked"]):
                     report(hist, "C05", "payouts_bounded", {"variant": var}, "payouts of batch %d exceed what was received" % bid, rec)
+        elif var == "liquid_unstake":
+            # repeated unstakes accumulate into one request; the batch total grows by what was handed in
+            amt = sum(int(x["amount"]) for x in c["funds"] if x["denom"] == lst)
+            pb, pa = q(b, "pending"), q(a, "pending")
+            if pb is not None and pa is not None and pb["id"] == pa["id"]:
+                rb = [r for r in (b["contract"]["requests"].get(c["sender"], {}).get("ok") or []) if r["batch_id"] == pb["id"]]
+                ra = [r for r in (a["contract"]["requests"].get(c["sender"], {}).get("ok") or []) if r["batch_id"] == pb["id"]]
+                before_amt = int(rb[0]["amount"]) if rb else 0
+                if c["sender"] in b["contract"]["requests"] and (len(ra) != 1 or int(ra[0]["amount"]) != before_amt + amt):
+                    report(hist, "C05", "unstake_accumulates", {"variant": var},
+                           "request of %s in batch %s was %d, %d LST were unstaked, the request is now %s" % (
+                               c["sender"], pb["id"], before_amt, amt, [r["amount"] for r in ra]), rec)
+                if int(pa["batch_total_liquid_stake"]) != int(pb["batch_total_liquid_stake"]) + amt:
+                    report(hist, "C05", "batch_total_grows", {"variant": var}, "pending batch total %s -> %s for an unstake of %d" % (
+                        pb["batch_total_liquid_stake"], pa["batch_total_liquid_stake"], amt), rec)
         elif var == "fee_withdraw":
             amt = int(c["msg"]["fee_withdraw"]["amount"])
             g.fee_withdrawn += amt
@@ -530,8 +545,15 @@ def m_auth(hist, rec):
         report(hist, "C08", "admin_only", {"variant": var}, "%s succeeded for non-admin %s" % (var, c["sender"]), rec)
     if ok and var == "recover_pending_ibc_transfers" and c["msg"][var].get("selected_packets") is not None and c["sender"] != admin:
         report(hist, "C08", "admin_only", {"variant": "forced_recover"}, "forced recovery by non-admin", rec)
-    if ok and var == "circuit_breaker" and c["sender"] != admin and c["sender"] not in cfg(b)["monitors"]:
-        report(hist, "C08", "breaker_auth", {"variant": var}, "circuit breaker by %s" % c["sender"], rec)
+    # the monitor list as the history of accepted configurations defines it (not the contract's own record)
+    mons = getattr(hist, "monitor_list", None)
+    if mons is None:
+        mons = list(su.monitors)
+    if ok and rec["committed"] and var == "update_config" and c["msg"][var].get("monitors") is not None:
+        mons = list(c["msg"][var]["monitors"])
+    hist.monitor_list = mons
+    if ok and var == "circuit_breaker" and c["sender"] != admin and (c["sender"] not in cfg(b)["monitors"] or c["sender"] not in mons):
+        report(hist, "C08", "breaker_auth", {"variant": var}, "circuit breaker by %s, who is neither the admin nor a monitor (monitors configured: %s)" % (c["sender"], mons), rec)
     nominated = getattr(hist, "last_nomination", None)      # by the history, not by the contract's own record
     if ok and var == "accept_ownership" and (c["sender"] != b["contract"]["pending_owner"] or nominated is None or nominated[1] != c["sender"]):
         report(hist, "C08", "accept_auth", {"variant": var},
@@ -739,6 +761,28 @@ def m_config(hist, rec):
         for k, ck in secs.items():
             if m.get(k) is None and ca[ck] != cb[ck]:
                 report(hist, "C14", "sectional", {"section": k}, "section %s changed without being supplied" % k, rec)
+        # ... and a supplied section is replaced by exactly what was supplied
+        def norm(x):
+            if isinstance(x, bool) or x is None:
+                return x
+            if isinstance(x, int):
+                return str(x)
+            if isinstance(x, list):
+                return [norm(y) for y in x]
+            if isinstance(x, dict):
+                return {kk: norm(vv) for kk, vv in x.items()}
+            return x
+        for k, ck in secs.items():
+            if m.get(k) is None:
+                continue
+            want, got = norm(m[k]), norm(ca[ck])
+            if isinstance(want, dict) and isinstance(got, dict):
+                bad = [kk for kk in want if kk in got and want[kk] != got[kk]]
+            else:
+                bad = [] if want == got else [k]
+            if bad:
+                report(hist, "C14", "sectional", {"section": k, "kept": True},
+                       "section %s was supplied as %s but the configuration now holds %s (fields %s)" % (k, str(m[k])[:200], str(ca[ck])[:200], bad), rec)
         if ca["liquid_stake_token_denom"] != cb["liquid_stake_token_denom"] or ca["stopped"] != cb["stopped"]:
             report(hist, "C14", "sectional", {"section": "denom_or_stopped"}, "UpdateConfig altered the LST denom or the halted flag", rec)
         chk = dict(ca)
